@@ -18,6 +18,7 @@ func init() {
 				{Harness: "c09.strings", Mode: "plain", Shards: 16},
 				{Harness: "c09.retain", Mode: "plain", Shards: 16},
 				{Harness: "c09.stream", Mode: "plain", Shards: 16, GC: "on"},
+				{Harness: "c09.tokens", Mode: "plain", Shards: 8, GC: "on"},
 				{Harness: "c09.lengths", Mode: "plain", Shards: 16},
 				{Harness: "c09.members", Mode: "plain", Shards: 16},
 			}
